@@ -9,6 +9,8 @@ BASE_ENV = {
     "ASAN_OPTIONS": "detect_leaks=0:abort_on_error=0:exitcode=87:allocator_may_return_null=1:detect_stack_use_after_return=0",
     "UBSAN_OPTIONS": "print_stacktrace=1:halt_on_error=0",
     "TMPDIR": "/tmp",
+    # without this mpiexec binds the ranks of EVERY pool to the same first cores: concurrent pools then run several times slower
+    "OMPI_MCA_hwloc_base_binding_policy": "none",
     # MPI-IO layer: ROMIO.  OpenMPI 4.1.4's default (ompio, fcoll vulcan/dynamic) returns wrong data for collective
     # reads whose regions overlap between ranks (reproduced with a 30-line pure MPI program), which is outside PnetCDF.
     "OMPI_MCA_io": "romio321",
